@@ -270,6 +270,10 @@ def LEMMAS():
 
 UNITS = [OrthoBasis(), CenterXi(), CenterXiJoint(), BasisScaleInvariant()]
 CALLEES = []
+# the gauge lemma's hypothesis -- trajectories see xi only through alpha * (t - tau), for EVERY alpha -- is the contract of C09 on
+# the real time_reparametrization (verified in C09's context): a cap, offset or non-linearity on alpha there fails this check too
+from contracts import c09 as _c09
+UNITS += [foreign(_c09.TimeReparam(), "c09")]
 ASSUMPTIONS = [
     "real arithmetic: the invariances hold up to rounding in floats ('unchanged' is read as mathematical identity)",
     "square root: instances of sqrt(x)^2 = x (x >= 0), sqrt(x) > 0 (x > 0); a sum of squares dominates each of its terms",
